@@ -859,6 +859,86 @@ def r28(ctx):
         raise AnalysisError(f"R-2.8: only {n_sites} offset-indexed sites found in inf_retis")
 
 
+def r29(ctx, rid="R-2.9"):
+    """Normalisation of the Monte-Carlo estimate: random_prob accumulates permutation matrices in
+    `out` (each doubly stochastic) and divides by the number it accumulated. Counting: the initial
+    value contributes 1 if it is an identity / permutation matrix (np.eye) and 0 if zeros; the
+    sampling loop `for _ in range(n)` adds the current state exactly once per iteration; the
+    divisor of the returned matrix must be that total. Otherwise rows and columns do not sum to 1
+    and inf_retis' own assertion stops the sampler whenever a block of more than 12 idle ensembles
+    with unequal weights occurs."""
+    tree = ctx.tree
+    f = tree.func(REPEX, "REPEX_state.random_prob")
+    fl = flow_of(f)
+    cfg = fl.cfg
+    rets = [r for r in walk_local(f) if isinstance(r, ast.Return)]
+    if len(rets) != 1:
+        raise AnalysisError(f"{rid}: random_prob has {len(rets)} returns")
+    v, _ = deref(fl, rets[0].value, cfg.node_of(rets[0]))
+    if not (isinstance(v, ast.BinOp) and isinstance(v.op, ast.Div) and isinstance(v.left, ast.Name)):
+        raise AnalysisError(f"{rid}: random_prob does not return <accumulator> / <count>")
+    acc = v.left.id
+
+    def lin(e):
+        if isinstance(e, ast.Constant) and isinstance(e.value, int) and not isinstance(e.value, bool):
+            return {1: e.value}
+        if isinstance(e, ast.Name):
+            return {e.id: 1}
+        if isinstance(e, ast.BinOp) and isinstance(e.op, (ast.Add, ast.Sub)):
+            a, b = lin(e.left), lin(e.right)
+            if a is None or b is None:
+                return None
+            sg = 1 if isinstance(e.op, ast.Add) else -1
+            out = dict(a)
+            for k, x in b.items():
+                out[k] = out.get(k, 0) + sg * x
+            return {k: x for k, x in out.items() if x != 0}
+        return None
+
+    div = lin(v.right)
+    # initial contribution
+    inits = [d for d in fl.defs if d.path == acc and d.kind == "assign" and d.value is not None]
+    if len(inits) != 1 or not isinstance(inits[0].value, ast.Call):
+        raise AnalysisError(f"{rid}: the accumulator of random_prob is not initialised once by a constructor call")
+    ctor = last_name(inits[0].value)
+    w0 = {"eye": 1, "identity": 1, "zeros": 0, "zeros_like": 0}.get(ctor)
+    if w0 is None:
+        raise AnalysisError(f"{rid}: initial value `{short(inits[0].value, 30)}` of the accumulator is not eye / zeros")
+    # the sampling loop
+    adds = [a for a in walk_local(f) if isinstance(a, ast.AugAssign) and isinstance(a.op, ast.Add) and isinstance(a.target, ast.Name) and a.target.id == acc]
+    if len(adds) != 1:
+        raise AnalysisError(f"{rid}: {len(adds)} accumulations into `{acc}`")
+    a = adds[0]
+    loops = [l for l in loops_of_(a) if isinstance(l, ast.For)]
+    if len(loops) != 1 or not (isinstance(loops[0].iter, ast.Call) and last_name(loops[0].iter) == "range" and len(loops[0].iter.args) == 1):
+        raise AnalysisError(f"{rid}: the accumulation is not inside one `for _ in range(n)` loop")
+    L = loops[0]
+    head = cfg.node_of(L)
+    an = cfg.node_of(a)
+    body_first = [s2 for s2, lab in cfg.succ[head.id] if lab == "T"]
+    skip = any(head.id in cfg.reachable(cfg.nodes[b], avoid=[an], labels_excluded=("exc",)) for b in body_first)
+    nloop = lin(L.iter.args[0])
+    if skip or nloop is None or div is None:
+        raise AnalysisError(f"{rid}: the sample count of random_prob is not decidable (conditional accumulation or non-linear bounds)")
+    total = dict(nloop)
+    total[1] = total.get(1, 0) + w0
+    total = {k: x for k, x in total.items() if x != 0}
+    if total == div:
+        ctx.ok(rid, rets[0], f"random_prob divides by {div}: the initial {ctor} matrix ({w0} sample) plus one matrix per iteration - rows and columns of the estimate sum to 1")
+    else:
+        ctx.bad(rid, rets[0], f"random_prob accumulates {total} permutation matrices (initial {ctor}: {w0}, plus one per iteration of `range({short(L.iter.args[0], 20)})`) but divides by {div}: rows and columns of the estimate do not sum to 1, so inf_retis' assertion fails - with more than 12 idle ensembles of unequal weight in one block no job can be drawn and the step's restart file is never written", construct=f"random_prob: {total} samples / {div}")
+
+
+def loops_of_(node):
+    out = []
+    n = getattr(node, "_parent", None)
+    while n is not None and not isinstance(n, FUNC):
+        if isinstance(n, (ast.For, ast.While)):
+            out.append(n)
+        n = getattr(n, "_parent", None)
+    return out
+
+
 def run(ctx):
     ctx.rule("R-2.1", "cache coherence of the memoised P matrix: typestate NONE/OK/STALE over every method of REPEX_state with callee summaries; no stale read, no stale exit of an externally called method; only the getter stores a matrix", floor=20)
     ctx.rule("R-2.2", "the getter computes P from the live weight matrix and busy flags and memoises that result", floor=2)
@@ -875,6 +955,8 @@ def run(ctx):
     ctx.attempt(r28, ctx)
     ctx.rule("R-2.7", "quick_prob touches its argument only through shape and zero pattern (scale invariance of the fast path; zero where the weight is zero)", floor=2)
     ctx.attempt(r27, ctx)
+    ctx.rule("R-2.9", "random_prob divides by the number of permutation matrices it accumulated (initial identity + one per iteration): the estimate is doubly stochastic", floor=1)
+    ctx.attempt(r29, ctx)
 
 
 VARIANTS = [
@@ -912,5 +994,7 @@ VARIANTS = [
     B("c02-plus-block-split-with-full-offset", REPEX, "                sorted_non_locked_T[:, offset:][\n                    np.where(\n                        sorted_non_locked_T[:, offset:]\n                        != sorted_non_locked_T[offset, offset:]", "                sorted_non_locked_T[:, self._offset :][\n                    np.where(\n                        sorted_non_locked_T[:, self._offset :]\n                        != sorted_non_locked_T[offset, self._offset :]", "R-2.8", control=True, why="seeded C02_c"),
     B("c02-blocks-with-full-offset", REPEX, "            blocks = self.find_blocks(sorted_non_locked, offset=offset)", "            blocks = self.find_blocks(sorted_non_locked, offset=self._offset)", "R-2.8"),
     B("c02-mask-sliced-with-reduced-offset", REPEX, "        offset = self._offset - sum(bool_locks[: self._offset])\n", "        offset = self._offset - sum(bool_locks[: self._offset])\n        n_busy_minus = sum(bool_locks[:offset])\n", "R-2.8"),
+    B("c02-montecarlo-divisor-off-by-one", REPEX, "        return out / (n + 1)\n", "        return out / n\n", "R-2.9", control=True, why="seeded C05_h"),
+    K("c02-keep-montecarlo-from-zeros", REPEX, "        out = np.eye(len(arr), dtype=\"longdouble\")\n        current_state = np.eye(len(arr))", "        out = np.zeros((len(arr), len(arr)), dtype=\"longdouble\")\n        current_state = np.eye(len(arr))", also=[(REPEX, "        return out / (n + 1)\n", "        return out / n\n")]),
     K("c02-keep-tuple-index-store", REPEX, "                out[i][j] = f * scaled_arr[i][j]", "                out[i, j] = f * scaled_arr[i, j]"),
 ]
